@@ -1726,7 +1726,8 @@ def _reset_history(
       history_out[worldid, adr] = last
       history_out[worldid, adr + 1] = float(n - 1)
       for k in range(n):
-        history_out[worldid, adr + 2 + k] = last - float(n - 1 - k) * period
+        # samples are taken at step times: snap to the next multiple of the timestep, as mj_resetData does
+        history_out[worldid, adr + 2 + k] = timestep * wp.ceil((last - float(n - 1 - k) * period) / timestep)
       for k in range(n * sensor_dim[i]):
         history_out[worldid, adr + 2 + n + k] = 0.0
 
